@@ -241,6 +241,75 @@ fn generate(rng: &mut Rng, tier: &str, w: &mut CaseWriter) {
         let kind = ["bai", "csi", "tbi"][i % 3];
         w.push("idxrt", vec![kind.into(), rng.next().to_string()]);
     }
+    // arbitrary structurally valid BAI / gzi indexes (modelled byte for byte), fai / crai (oracle)
+    let n = if thorough { 3000 } else { 150 };
+    for _ in 0..n {
+        gen_bai_case(rng, w);
+    }
+    for _ in 0..n {
+        let k = rng.range(0, 8) as usize;
+        let big = rng.chance(1, 4);
+        let cs: Vec<(u64, u64)> = (0..k)
+            .map(|_| if big { (rng.next(), rng.next()) } else { (rng.below(1 << 20), rng.below(1 << 24)) })
+            .collect();
+        w.push("gzi", vec![fmt_chunks(&cs)]);
+    }
+    for i in 0..n {
+        w.push(if i % 2 == 0 { "fai" } else { "crai" }, vec![rng.next().to_string()]);
+    }
+}
+
+fn gen_u64(rng: &mut Rng) -> u64 {
+    match rng.below(5) {
+        0 => rng.below(100),
+        1 => rng.below(1 << 32),
+        2 => u64::MAX - rng.below(3),
+        3 => 1u64 << rng.below(64),
+        _ => rng.next(),
+    }
+}
+
+fn gen_bai_case(rng: &mut Rng, w: &mut CaseWriter) {
+    let nref = rng.range(0, 3);
+    let mut refs = Vec::new();
+    for _ in 0..nref {
+        let nb = rng.range(0, 5);
+        let mut ids: Vec<u64> = Vec::new();
+        while (ids.len() as u64) < nb {
+            let id = match rng.below(4) {
+                0 => rng.below(10),
+                1 => 37449 - rng.below(3),
+                2 => 4681 + rng.below(32768),
+                _ => rng.below(37450),
+            };
+            if !ids.contains(&id) {
+                ids.push(id);
+            }
+        }
+        let bins: Vec<String> = ids
+            .iter()
+            .map(|id| {
+                let k = rng.range(0, 3) as usize;
+                let cs: Vec<(u64, u64)> = (0..k).map(|_| (gen_u64(rng), gen_u64(rng))).collect();
+                format!("{id}={}", fmt_chunks(&cs))
+            })
+            .collect();
+        let meta = if rng.chance(1, 2) {
+            format!("{}:{}:{}:{}", gen_u64(rng), gen_u64(rng), gen_u64(rng), gen_u64(rng))
+        } else {
+            "-".into()
+        };
+        let ni = rng.range(0, 5);
+        let ivs: Vec<String> = (0..ni).map(|_| gen_u64(rng).to_string()).collect();
+        refs.push(format!(
+            "{}|{}|{}",
+            if bins.is_empty() { "_".into() } else { bins.join(";") },
+            meta,
+            if ivs.is_empty() { "_".into() } else { ivs.join(",") }
+        ));
+    }
+    let unplaced = if rng.chance(1, 2) { gen_u64(rng).to_string() } else { "-".into() };
+    w.push("bai", vec![unplaced, if refs.is_empty() { "_".into() } else { refs.join("/") }]);
 }
 
 // -------------------------------------------------------------------------------------------
@@ -561,6 +630,152 @@ fn run_idxrt(kind: &str, seed: u64) -> Obs {
     }
 }
 
+fn run_bai(c: &Case) -> Obs {
+    use noodles_csi::binning_index::index::reference_sequence::Metadata;
+    let unplaced: Option<u64> = if c.args[0] == "-" { None } else { Some(c.args[0].parse().unwrap()) };
+    let mut rss: Vec<ReferenceSequence<LinearIndex>> = Vec::new();
+    if c.args[1] != "_" {
+        for r in c.args[1].split('/') {
+            let f: Vec<&str> = r.split('|').collect();
+            let bins: IndexMap<usize, Bin> = if f[0] == "_" {
+                IndexMap::new()
+            } else {
+                f[0].split(';')
+                    .map(|b| {
+                        let (id, cs) = b.split_once('=').unwrap();
+                        (id.parse().unwrap(), Bin::new(to_chunks(&parse_chunks(cs))))
+                    })
+                    .collect()
+            };
+            let meta = if f[1] == "-" {
+                None
+            } else {
+                let m: Vec<u64> = f[1].split(':').map(|x| x.parse().unwrap()).collect();
+                Some(Metadata::new(VP::from(m[0]), VP::from(m[1]), m[2], m[3]))
+            };
+            let ivs: LinearIndex = if f[2] == "_" { vec![] } else { f[2].split(',').map(|x| VP::from(x.parse::<u64>().unwrap())).collect() };
+            rss.push(ReferenceSequence::new(bins, ivs, meta));
+        }
+    }
+    let nontrivial = !rss.is_empty();
+    let mut b = binning_index::Index::<LinearIndex>::builder().set_reference_sequences(rss);
+    if let Some(n) = unplaced {
+        b = b.set_unplaced_unmapped_record_count(n);
+    }
+    let index: bai::Index = b.build();
+    let mut buf = Vec::new();
+    if let Err(e) = bai::io::Writer::new(&mut buf).write_index(&index) {
+        return Obs::fail(format!("Err:{:?}", e.kind()), "bai-write-error", format!("{e}"));
+    }
+    match bai::io::Reader::new(&buf[..]).read_index() {
+        Ok(back) if back == index => Obs::ok(format!("{} same", nv::hex(&buf)), nontrivial),
+        Ok(_) => Obs::fail(format!("{} different", nv::hex(&buf)), "bai-roundtrip-not-equal", c.line()),
+        Err(e) => Obs::fail(format!("{} Err", nv::hex(&buf)), "bai-read-error", format!("{e} {}", c.line())),
+    }
+}
+
+fn run_gzi(c: &Case) -> Obs {
+    use noodles_bgzf::gzi;
+    let cs = parse_chunks(&c.args[0]);
+    let index = gzi::Index::from(cs.clone());
+    let mut buf = Vec::new();
+    if let Err(e) = gzi::io::Writer::new(&mut buf).write_index(&index) {
+        return Obs::fail(format!("Err:{:?}", e.kind()), "gzi-write-error", format!("{e}"));
+    }
+    let back = gzi::io::Reader::new(&buf[..]).read_index();
+    let mut with_trailing = buf.clone();
+    with_trailing.push(0);
+    let trailing = match gzi::io::Reader::new(&with_trailing[..]).read_index() {
+        Ok(_) => "accepted",
+        Err(_) => "Err",
+    };
+    match back {
+        Ok(b) if b == index => Obs::ok(format!("{} same {trailing}", nv::hex(&buf)), !cs.is_empty()),
+        Ok(_) => Obs::fail(format!("{} different {trailing}", nv::hex(&buf)), "gzi-roundtrip-not-equal", c.line()),
+        Err(e) => Obs::fail(format!("{} Err {trailing}", nv::hex(&buf)), "gzi-read-error", format!("{e} {}", c.line())),
+    }
+}
+
+fn run_fai(seed: u64) -> Obs {
+    use noodles_fasta::fai;
+    use std::num::NonZero;
+    let mut rng = Rng::new(seed);
+    let n = rng.range(0, 5);
+    let recs: Vec<fai::Record> = (0..n)
+        .map(|i| {
+            // names: any bytes except TAB / LF / CR (the line and column separators of the format)
+            let k = rng.range(1, 6) as usize;
+            let mut name: Vec<u8> = if rng.chance(1, 4) {
+                // any bytes
+                rng.bytes(k).into_iter().filter(|b| !matches!(b, b'\t' | b'\n' | b'\r')).collect()
+            } else {
+                // printable ASCII and some multi-byte UTF-8
+                let mut v = Vec::new();
+                for _ in 0..k {
+                    match rng.below(8) {
+                        0 => v.extend_from_slice("é".as_bytes()),
+                        1 => v.extend_from_slice("染".as_bytes()),
+                        _ => v.push(rng.range(0x20, 0x7e) as u8),
+                    }
+                }
+                v
+            };
+            name.extend_from_slice(format!("s{i}").as_bytes());
+            let lb = gen_u64(&mut rng).max(1);
+            let lw = gen_u64(&mut rng).max(1);
+            fai::Record::new(name, gen_u64(&mut rng), gen_u64(&mut rng), NonZero::new(lb).unwrap(), NonZero::new(lw).unwrap())
+        })
+        .collect();
+    let non_utf8 = recs.iter().any(|r| std::str::from_utf8(r.name()).is_err());
+    let index = fai::Index::from(recs);
+    let mut buf = Vec::new();
+    if let Err(e) = fai::io::Writer::new(&mut buf).write_index(&index) {
+        return Obs::fail("-", "fai-write-error", format!("seed={seed} {e}"));
+    }
+    match fai::io::Reader::new(&buf[..]).read_index() {
+        Ok(back) if back == index => Obs::ok("-", n > 0),
+        Ok(_) => Obs::fail("-", "fai-roundtrip-not-equal", format!("seed={seed} text={:?}", String::from_utf8_lossy(&buf))),
+        // known class: the fai reader reads lines as UTF-8 `String`s while names are arbitrary bytes
+        Err(e) if non_utf8 && e.kind() == std::io::ErrorKind::InvalidData => {
+            Obs::fail("-", "fai-non-utf8-name", format!("seed={seed} {e} text={:?}", String::from_utf8_lossy(&buf)))
+        }
+        Err(e) => Obs::fail("-", "fai-read-error", format!("seed={seed} {e} text={:?}", String::from_utf8_lossy(&buf))),
+    }
+}
+
+fn run_crai(seed: u64) -> Obs {
+    use noodles_cram::crai;
+    let mut rng = Rng::new(seed);
+    let n = rng.range(0, 6);
+    let recs: Vec<crai::Record> = (0..n)
+        .map(|_| {
+            let (sh1, sh2) = (rng.below(31), rng.below(32));
+            let (rid, start, span) = match rng.below(4) {
+                0 => (None, None, 0usize),
+                _ => (
+                    Some(rng.below(1 << sh1) as usize),
+                    Position::new(rng.range(1, 1 << 31) as usize),
+                    rng.below(1 << sh2) as usize,
+                ),
+            };
+            crai::Record::new(rid, start, span, gen_u64(&mut rng) >> 1, gen_u64(&mut rng) >> 1, gen_u64(&mut rng) >> 1)
+        })
+        .collect();
+    let mut w = crai::io::Writer::new(Vec::new());
+    if let Err(e) = w.write_index(&recs) {
+        return Obs::fail("-", "crai-write-error", format!("seed={seed} {e}"));
+    }
+    let buf = match w.finish() {
+        Ok(b) => b,
+        Err(e) => return Obs::fail("-", "crai-finish-error", format!("seed={seed} {e}")),
+    };
+    match crai::io::Reader::new(&buf[..]).read_index() {
+        Ok(back) if back == recs => Obs::ok("-", n > 0),
+        Ok(back) => Obs::fail("-", "crai-roundtrip-not-equal", format!("seed={seed} wrote={recs:?} read={back:?}")),
+        Err(e) => Obs::fail("-", "crai-read-error", format!("seed={seed} {e} wrote={recs:?}")),
+    }
+}
+
 fn run(c: &Case) -> Obs {
     match c.kind.as_str() {
         "r2b" => {
@@ -593,6 +808,10 @@ fn run(c: &Case) -> Obs {
             Obs::ok(fmt_chunks(&out), cs.len() >= 2).with_verdict(r)
         }
         "idxrt" => run_idxrt(&c.args[0], c.u(1)),
+        "bai" => run_bai(c),
+        "gzi" => run_gzi(c),
+        "fai" => run_fai(c.u(0)),
+        "crai" => run_crai(c.u(0)),
         k => Obs::fail("-", "harness-unknown-kind", k),
     }
 }
